@@ -572,8 +572,9 @@ func (c *Context) Sqrt(d, x *Decimal) (Condition, error) {
 	nc.Rounding = RoundHalfEven
 	ndApprox := approx.NumDigits()
 	adjLo := int64(approx.Exponent) + ndApprox - 1 + e/2
-	if adjLo > int64(c.MaxExponent) {
-		// Overflow: the usual rounding reports it.
+	if adjLo > int64(c.MaxExponent) || c.Precision == 0 {
+		// Overflow: the usual rounding reports it. Precision 0 disables
+		// rounding: the working-precision approximation is returned as is.
 		d.Set(&approx)
 		d.Exponent += int32(e / 2)
 		res := nc.round(d, d)
